@@ -26,9 +26,11 @@ def check(rep, F, rule='ASCII-ROUND'):
         pe = TB.PathEnum(F, fn, max_paths=200, cut_loops=True)
         paths = pe.run()
     except Undecided as e:
-        rep.undecided(rule, fn.key + ':positions', str(e), fn.where())
+        rep.undecided_anchor(rule, fn.key + ':positions', str(e), fn.where())
         return 0
-    D = TB.T('param', 1)
+    # the digit buffer is the `&mut Vec<u8>` parameter, wherever it stands in the parameter list
+    dpar = [i for i, ty in enumerate(fn.argtys(), 1) if re.search(r'Vec<u8>', ty)]
+    D = TB.T('param', dpar[0] if len(dpar) == 1 else 1)
     n = None
     res = {}
 
